@@ -16,6 +16,21 @@ if ! go build -C "$HERE" -modfile="$SCRATCH/go.mod" -o "$BIN/vcheck" ./cmd/vchec
   echo "HARNESS-ERROR property=$ID harness does not build against $VERIF_REPO" >&2
   exit 2
 fi
+case "$ID" in
+  C12|C17)
+    # patched-runtime build (owned map-iteration order) of the child program
+    if python3 "$HERE/maporder/patch.py" "$(go env GOROOT)" "$BIN/maporder" > "$SCRATCH/patch.log" 2>&1; then
+      if ! go build -C "$HERE" -modfile="$SCRATCH/go.mod" -overlay "$BIN/maporder/overlay.json" -tags verifmap -o "$BIN/mapchild" ./cmd/mapchild 2> "$SCRATCH/build2.log"; then
+        cat "$SCRATCH/build2.log" >&2
+        echo "HARNESS-ERROR property=$ID mapchild does not build" >&2
+        exit 2
+      fi
+    else
+      cat "$SCRATCH/patch.log" >&2
+      echo "HARNESS-ERROR property=$ID runtime map.go anchors not found" >&2
+      exit 2
+    fi ;;
+esac
 "$BIN/vcheck" "$ID" "$@"
 rc=$?
 exit $rc
